@@ -176,6 +176,7 @@ var pwPodMenu = map[string]pwPod{
 	"web-new":     {NS: "ns1", Name: "web", Labels: map[string]string{"app": "web"}, IP: "10.0.0.9", OnNode: true},         // web re-created with another IP
 	"db-plain":    {NS: "ns1", Name: "db", Labels: map[string]string{"app": "db"}, IP: "10.0.0.3", OnNode: true},           // db lost its role=client label
 	"db-noip":     {NS: "ns1", Name: "db", Labels: map[string]string{"app": "db", "role": "client"}, IP: "", OnNode: true}, // db re-created under its name, not yet networked
+	"bare":        {NS: "ns1", Name: "bare", Labels: nil, IP: "10.0.0.8", OnNode: true},                                    // a pod without any label (selected by empty selectors)
 	"cli-pending": {NS: "ns1", Name: "cli", Labels: map[string]string{"role": "client"}, IP: "", OnNode: true},             // created, not yet networked
 	"cli-ready":   {NS: "ns1", Name: "cli", Labels: map[string]string{"role": "client"}, IP: "10.0.0.7", OnNode: true},     // the same pod once it has its IP
 	"noip":        {NS: "ns1", Name: "pending", Labels: map[string]string{"app": "web"}, IP: "", OnNode: true},             // not yet networked
